@@ -224,6 +224,11 @@ func (a *deviceKeystore) computeMemberKeyForMultiMemberGroup(groupPublicKey cryp
 // restoreAccountKeys restores exported LibP2P keys into the deviceKeystore, it
 // will fail if accounts keys are already created or imported into the keystore
 func (a *deviceKeystore) restoreAccountKeys(accountPrivateKeyBytes []byte, accountProofPrivateKeyBytes []byte) error {
+	// checking that no account exists and writing the imported one must not
+	// interleave with the first use of an account key (getOrGenerateNamedKey)
+	a.mu.Lock()
+	defer a.mu.Unlock()
+
 	privateKeys := map[string]crypto.PrivKey{}
 
 	for keyName, keyBytes := range map[string][]byte{
